@@ -942,3 +942,5 @@ def run(chk, facts, tier, only=None):
     if only is None:
         import c17
         chk.include(c17, "C17.R3", "C18.R6", facts)     # chase_actor / infer_rec (shared with the JavaScript generator) decide order and Box
+        import c15
+        chk.include(c15, "C15.R3", "C18.R7", facts)     # "as computed by the derive macro": the derive hashes rename / un-rawed identifier and sorts by it
